@@ -1,4 +1,5 @@
 import Proofs.Payouts
+import Proofs.Snapshot
 import Proofs.Chain
 import Pegnet.Generated.Facts
 /-
@@ -106,6 +107,35 @@ theorem stake_uses_minimum (P : Params) (h : Nat) (rates : TMap) (cur past cur' 
         simp only [ht, Bool.false_eq_true, if_false, hmin t hne]
   exact congrArg (fun f => List.foldl f (some 0) ((List.range (P.tickerMax - 1)).map (· + 1))) hf
 
+/-- **When the snapshot is taken.** At a snapshot height the first thing the transaction phase of
+    the block does is to rotate the snapshots: the new current snapshot is the balance table as
+    it stands BEFORE the held conversions, the block's transactions and its rewards touch any
+    balance, the previous current snapshot becomes the past one. -/
+theorem snapshot_taken_before_block {P : Params} {c : DB} {b : Block} {avgs : TMap} {ra : Bool} {s s' : DB}
+    (hr : txPhase P c b avgs ra s = .ok () s') (htx : b.height ≥ P.act.txConv)
+    (hdue : b.height ≥ P.act.v20 ∧ b.height % P.snapshotRate = 0) :
+    ∃ s1, snapshotPhase P b s = .ok () s1 ∧ s1.snapCur = s.addrs ∧ s1.snapPast = s.snapCur :=
+  snapshot_before_block_transactions hr htx hdue
+
+/-- Cadence: off the snapshot heights (before 2.0, or not a multiple of the snapshot rate) the
+    step does nothing at all — no rotation, no payout. -/
+theorem no_payout_off_cadence (P : Params) (b : Block) (s : DB)
+    (h : ¬ (b.height ≥ P.act.v20 ∧ b.height % P.snapshotRate = 0)) : snapshotPhase P b s = .ok () s :=
+  snapshotPhase_off_cadence P b s h
+
+/-- **An address absent from either snapshot is not paid**: the stakers are taken from the inner
+    join of the two snapshots on the address. -/
+theorem absent_not_paid {cur past : List AddrRow} {a : Addr} :
+    ((∀ p ∈ past, p.addr ≠ a) → ∀ x ∈ joinSnapshots cur past, x.1 ≠ a) ∧
+    ((∀ c ∈ cur, c.addr ≠ a) → ∀ x ∈ joinSnapshots cur past, x.1 ≠ a) :=
+  ⟨absent_from_past_not_joined, absent_from_current_not_joined⟩
+
+/-- …and a joined row carries exactly the two balance vectors of that address -/
+theorem joined_row_is_both_snapshots {cur past : List AddrRow} {x : Addr × List Int × List Int}
+    (hx : x ∈ joinSnapshots cur past) :
+    (∃ c ∈ cur, c.addr = x.1 ∧ c.bals = x.2.1) ∧ (∃ p ∈ past, p.addr = x.1 ∧ p.bals = x.2.2) :=
+  join_requires_both hx
+
 /-- the regenerated constants: 4,500 PEG per block for holders, snapshots every 144 blocks -/
 theorem staking_constants : Generated.perBlockAssetHolders = 450000000000 ∧ Generated.snapshotRate = 144 ∧
     Generated.perBlockAssetHolders * Generated.snapshotRate ≤ maxUint64 := by decide
@@ -119,3 +149,7 @@ end Pegnet.C14
 #print axioms Pegnet.C14.payout_proportional
 #print axioms Pegnet.C14.stake_uses_minimum
 #print axioms Pegnet.C14.staking_constants
+#print axioms Pegnet.C14.snapshot_taken_before_block
+#print axioms Pegnet.C14.no_payout_off_cadence
+#print axioms Pegnet.C14.absent_not_paid
+#print axioms Pegnet.C14.joined_row_is_both_snapshots
